@@ -670,8 +670,8 @@ def gen_stub(rng, case):
             elif k == 2 and len(params) >= 2:
                 i = rng.randrange(len(params) - 1)
                 params[i], params[i + 1] = params[i + 1], params[i]
-            elif k == 3 and nq:
-                params[rng.randrange(nq)][1] = True
+            elif k == 3 and any(a == "qubit" for a, _o in params):
+                rng.choice([p for p in params if p[0] == "qubit"])[1] = True
             elif k == 4 and params:
                 params[rng.randrange(len(params))][0] = rng.choice(["float", "int", "array[qubit, 1]", "array[qubit, 2]", "array[angle, 2]", "bool"])
             elif k == 5:
